@@ -200,7 +200,7 @@ func c18Decorate(rng *rand.Rand, src string, keywordNames bool) string {
 // right before the closing quote), sigils, comment openers, brackets, and words of the
 // expanded-syntax keyword table. Contents are given in source form (already escaped).
 var c18StringPool = []string{"a\tb", "\t", "  lead", "trail  ", "a  b   c", `C:\\`, `dir\\sub\\`, `x\\\"y`, `\\`, `q\"q`, "please return the form", "let use type route", "validate expects handle",
-	"# not a comment", "// neither", "/* nor this */", "@ $ % ~ > < : ? ! & *", "{", "}", "[(", ")]", "a: b, c", "=>", "|>", "\\x41", "\\u00e9", "it's", "tab\there", "end\\"}
+	"# not a comment", "// neither", "/* nor this */", "@ $ % ~ > < : ? ! & *", "{", "}", "[(", ")]", "a: b, c", "=>", "|>", "\\x41", "\\u00e9", "caf\\xc3\\xa9", "\\xff", "\\x80\\x7f", "\\u00ff\\xfe", "it's", "tab\there", "end\\"}
 
 func c18HostileStrings(rng *rand.Rand, src string) string {
 	return c18DqRe.ReplaceAllStringFunc(src, func(m string) string {
@@ -404,11 +404,15 @@ func c18Worker(in, out string) {
 			src = c18Decorate(rng, prog.Source(pat), i%2 == 0)
 		case "generated-core":
 			f := gen.Features{Floats: true, Strings: true, Arrays: true, Objects: true, While: true, For: true, Switch: true, StatusReturn: true, BuiltinsCore: true, BuiltinsInterp: true,
-				LogicRhsMayFail: true, EqIntFloat: true, DivZero: true, IndexOOR: true, NestedReturn: true, DeclInBranch: true}
+				LogicRhsMayFail: true, EqIntFloat: true, DivZero: true, IndexOOR: true, NestedReturn: true, DeclInBranch: true, Guards: true}
 			g := gen.New(rng, f)
 			prog := g.Program(2 + rng.Intn(7))
 			pat, _ := prog.RoutePath("/t")
 			src = prog.Source(pat)
+			if i%5 == 1 {
+				// statement keywords directly followed by a parenthesis: `validate (..)`, `return (..) :: 201` in expanded text
+				src += "\n@ GET /paren {\n  $ a = 1\n  ? (a > 0) :: 400 \"bad\"\n  if a > 5 {\n    > (a + 1) :: 201\n  }\n  > (a + 2) * 3\n}\n"
+			}
 			if i%3 == 0 {
 				src = c18Decorate(rng, src, false)
 			}
